@@ -135,7 +135,8 @@ class SQLiteBlockingControl(BaseBlockingControl):
             AND i.status IN ({placeholders})
             LIMIT ?
         """
-        params = [*available_statuses, max_num_invocations]
+        # A negative LIMIT means "no limit" in SQLite: never return more than requested
+        params = [*available_statuses, max(max_num_invocations, 0)]
         with sqlite_conn(self.sqlite_db_path) as conn:
             cursor = conn.execute(query, tuple(params))
             cursor_rows = cursor.fetchall()
